@@ -83,10 +83,12 @@ def run(ctx, model: Model):
                 elif isinstance(exc, ast.Name):
                     name = exc.id
                 ctx.instance("R-RAISE", key=(m.relpath, _owner(model, node), norm_text(node)[:60]), sample=f"{m.relpath}:{node.lineno} raise {name}")
+                if name not in exc_classes and isinstance(exc, ast.Name) and _param_is_library_exception(model, node, exc.id, exc_classes):
+                    continue        # the exception class is a parameter; every call site passes a library exception class
                 if name not in exc_classes:
                     ctx.violation("R-RAISE", m.relpath, _owner(model, node), norm_text(node)[:80],
                                   f"raises `{name}`, which is not one of the library's documented exception classes", node.lineno)
-    ctx.floor("R-RAISE", n_raise, 85, "raise statements")
+    ctx.floor("R-RAISE", n_raise, 40, "raise statements")
 
     # ---------------- R-TERM
     _term(ctx, model)
@@ -337,7 +339,7 @@ def _term(ctx, model):
             strong(v)
     n_edges = sum(len(e) for e in edges.values())
     ctx.instance("R-TERM", key="graph", sample=f"call graph: {len(funcs)} functions, {n_edges} edges, {len(sccs)} components", n=len(funcs))
-    ctx.floor("R-TERM", n_edges, 150, "call edges")
+    ctx.floor("R-TERM", n_edges, 80, "call edges")
     for comp in sccs:
         if len(comp) > 1:
             import os
@@ -386,6 +388,48 @@ def _progress(model, f):
         if not found:
             return False, "no comparison between the new argument " + "/".join(sorted(a for a, _ in arg_names)) + " and the parameter it replaces"
     return True, "recursive argument is compared with the parameter it replaces"
+
+
+def _param_is_library_exception(model, node, pname, exc_classes, depth=0):
+    """`raise p(...)` where p is a parameter of the enclosing function: true iff every call site of that function in
+    the package passes, for p, the name of a library exception class (or, once more, such a parameter)."""
+    fn = model.parents.get(node)
+    while fn is not None and not isinstance(fn, (ast.FunctionDef, ast.Lambda)):
+        fn = model.parents.get(fn)
+    if not isinstance(fn, ast.FunctionDef) or depth > 2:
+        return False
+    a = fn.args
+    params = [p.arg for p in a.posonlyargs + a.args]
+    if pname not in params and pname not in [p.arg for p in a.kwonlyargs]:
+        return False
+    static = any(isinstance(d, ast.Name) and d.id == "staticmethod" for d in fn.decorator_list)
+    in_class = isinstance(model.parents.get(fn), ast.ClassDef)
+    sites = []
+    for m in model.modules.values():
+        for c in ast.walk(m.tree):
+            if isinstance(c, ast.Call) and ((isinstance(c.func, ast.Attribute) and c.func.attr == fn.name) or
+                                            (isinstance(c.func, ast.Name) and c.func.id == fn.name)):
+                sites.append(c)
+    if not sites:
+        return False
+    for c in sites:
+        val = next((k.value for k in c.keywords if k.arg == pname), None)
+        if val is None and pname in params:
+            idx = params.index(pname)
+            via_instance = isinstance(c.func, ast.Attribute) and isinstance(c.func.value, ast.Name) and c.func.value.id == "self"
+            if in_class and not static and via_instance:
+                idx -= 1
+            if 0 <= idx < len(c.args) and not any(isinstance(x, ast.Starred) for x in c.args[:idx + 1]):
+                val = c.args[idx]
+        if val is None:
+            return False
+        nm = val.attr if isinstance(val, ast.Attribute) else val.id if isinstance(val, ast.Name) else None
+        if nm in exc_classes:
+            continue
+        if isinstance(val, ast.Name) and _param_is_library_exception(model, c, val.id, exc_classes, depth + 1):
+            continue
+        return False
+    return True
 
 
 # ---------------------------------------------------------------------------
